@@ -128,6 +128,39 @@ def one(spec, R, batch, stats, considered_mode):
         b.dispose()
 
 
+def one_staged(spec, R, batch, stats):
+    """a history: the classes are first used in a SMALLER grammar (one weighted production left out, as when a library of
+    component classes is shared by several grammars), then the whole grammar is extracted; the whole grammar's weights are
+    subject to the same clauses, with the weights the user declared on the classes"""
+    leaves = [c["name"] for c in spec["classes"] if not c["abstract"] and c["parent"]
+              and not any(x["parent"] == c["name"] for x in spec["classes"])]
+    if len(leaves) < 3:
+        return
+    b = GR.build(spec)
+    try:
+        decl = b.oracle()
+        left_out = leaves[R.randrange(len(leaves))]
+        if b.classes[left_out] is b.start:
+            return
+        subset = [c for c in b.considered if c.__name__ != left_out]
+        try:
+            with time_limit(10):
+                extract_grammar(subset, b.start)
+        except Exception:
+            return          # the smaller grammar is not extractable (a required production is missing): no history
+        evs = []
+        try:
+            with time_limit(10):
+                g = extract_grammar(b.considered, b.start)
+            evs.append({"e": "weights", "k": 1, "exc": "", "impl": impl_grammar(g), "exact_same": True})
+        except Exception as e:
+            evs.append({"e": "weights", "k": 1, "exc": exc_name(e), "impl": {"expd": False}, "exact_same": True})
+        batch.trace(f"{spec['id']}/staged", evs, {"k": "c19", "g": decl, "considered": "after-a-smaller-grammar"})
+        stats["events"] += len(evs)
+    finally:
+        b.dispose()
+
+
 def one_raw(raw, R, batch, stats):
     """a raw-source grammar with weights: whole programs created by the progressively-terminal decider (productions whose
     refinement fails while they are built make create_node retry with the remaining alternatives)"""
@@ -238,6 +271,9 @@ def main():
             one(spec, R, batch, stats, "concrete-classes-only")
         if i % 2 == 0 or i < len(W_FIXED):
             one(spec, R, batch, stats, "nested-start")
+    for i, spec in enumerate(specs):
+        if i < len(W_FIXED) or i % 2 == 0:
+            one_staged(spec, R, batch, stats)
     for raw in GR.RAW_WEIGHTED:
         one_raw(raw, R, batch, stats)
     batch.traces = finalize(batch.traces)
